@@ -24,10 +24,11 @@ OPERATORS = [K + m for m in ("__or__", "__ror__", "__sub__", "__rsub__", "__inve
 CORE = [K + "__or", K + "__sub"]
 
 
-# F2 - the two plain-string helpers of the text layer are decided COMPLETELY by data independence: their bodies (compared, without
-# doc strings, with the forms below every run) only count / split at '-', test membership in _to_escape, test lengths and copy
-# characters; their behaviour on an item is therefore a function of WHICH of its characters are '-' / the six escapable ones, and
-# the items are treated one at a time.  All item shapes over those characters plus two representatives of "any other character"
+# F2 - three plain helpers of the text layer are decided COMPLETELY by data independence: their bodies (compared, without doc
+# strings, with the reviewed forms every run) only count / split at '-', test membership in _to_escape, test lengths and copy
+# characters (__split_range, __modify_classes: behaviour on an item is a function of WHICH of its characters are '-' / the six
+# escapable ones; items are treated one at a time), or only test whether six particular items are in the set (__verbose_to_
+# shorthand).  All item shapes over those characters plus two representatives of "any other character"
 # are run on the real code (pvc/bex_misc.py).  If a body no longer has this form the decision is no longer complete: the runs
 # still count as a bounded check and the obligation is listed as no longer proved (PROOF-LOST), not as a violation.
 from contracts.f2_forms import FORMS as F2_FORMS
@@ -49,7 +50,8 @@ def f2(rep):
         body = [s for s in copy.deepcopy(fi.node).body if not (isinstance(s, ast.Expr) and isinstance(s.value, ast.Constant))]
         return "\n".join(ast.unparse(strip(s)) for s in body)
     toesc = native("build_patterns", {"exprs": ["AnyLetter()"]})      # keeps the native server warm; value unused
-    for name, func in (("__split_range", "split_range_decision"), ("__modify_classes", "modify_classes_decision")):
+    for name, func in (("__split_range", "split_range_decision"), ("__modify_classes", "modify_classes_decision"),
+                       ("__verbose_to_shorthand", "shorthand_decision")):
         fi = idx.func(K + name)
         same_form = body_text(fi) == F2_FORMS[name]
         r = native("run_module", {"module": "pvc.bex_misc", "func": func})
